@@ -10,7 +10,8 @@ import rulesets
 from props.C04 import collect, independent_product
 
 ID = "C17"
-TRUSTED = ["argparse, the OS pipe, codecs file writing", "in-process reference stream = real PcfgQueue over the Prince folder + create_guesses"]
+TRUSTED = ["argparse, the OS pipe, codecs file writing", "in-process reference stream = real PcfgQueue over the Prince folder + create_guesses",
+           "second tie (translator): harness/translate_expand.py (ast -> Gallina, fail closed; accepted subset and what it does not model in its docstring) and the meaning coq/theories/ExpandRt.v gives to Python subscripts, slices, `if limit:` and str methods; print_guess, MarkovCracker, int() and str.upper() of one character are parameters of the generated functions"]
 ASSUMES = ["N >= 1"]
 
 
@@ -188,6 +189,9 @@ def run(ctx):
             "--all_lower, unbounded and with --size N for N = 1, total, total+3, b-1/b/b+1 around group boundaries and strictly inside "
             "groups of equally probable words; output compared byte-wise with the in-process reference; non-trivial = N strictly inside a "
             "group; distinct by (ruleset, N)")
+    # second tie to the source (translator): name the broken equality if the build lost ExpandGenProofs
+    import expand_tie
+    corr.append(expand_tie.obligation())
     return {"evaluations": dist["cli_runs"], "distinct_nontrivial": nontrivial, "rule": rule, "samples": samples,
             "corr": corr, "violations": vio, "dist": dist}
 
